@@ -11,7 +11,9 @@
                                              "no length ⇒ close", transparent gzip when the proxy solicited it)
     martian `roundTrip`                     (body of a header-only response discarded)
     response modifiers                      (user response rules, then hop-by-hop removal), upgrade re-add
-    martian `writeResponse`                 (close decision, `Connection: close`, the header-only writer,
+    martian `writeResponse`                 (close decision, close-delimited fallback for HTTP/1.0 clients,
+                                             re-framing of a transparently gunzipped body, `Connection: close`,
+                                             the header-only writer incl. its `Trailer:` line,
                                              `Response.Write` incl. its "no length ⇒ close" rule)
   Core-only.
 -/
@@ -31,6 +33,7 @@ structure ReqCtx where
   reqClose : Bool                     -- `req.Close` (client asked for close, or HTTP/1.0 without keep-alive)
   solicitedGzip : Bool                -- the transport itself added `Accept-Encoding: gzip`
   rules : List Rule := []             -- --response-header rules
+  reqMinor : Nat := 1                 -- the client's request is HTTP/1.<reqMinor>
   deriving Repr
 
 /-- response as the origin sent it; framing is read from the field lines -/
@@ -46,8 +49,6 @@ inductive Framing where
   | cl (n : Nat)
   | chunked (trailers : List Bytes)   -- declared trailer names (canonical, sorted)
   | eof                               -- body ends with the connection
-  | unframed                          -- no length, no chunking, connection kept open (F22)
-  | unterminatedHead                  -- header-only writer never ends the head (F1)
   deriving Repr, DecidableEq
 
 inductive BodyXform where
@@ -151,6 +152,35 @@ def readResponse (rc : ReqCtx) (o : OriginResp) : Option GoResp := do
   some { minor := o.minor, status := o.status, reason := o.reason, header := h6, contentLength := len,
          chunked := chunked, close := close1, trailer := trailer, uncompressed := unc, hasBody := hasBody0 }
 
+/-- what `writeResponse` has settled about the message before it calls one of the writers:
+    `res.TransferEncoding` (chunked or none), `res.ContentLength`, `res.Close` -/
+structure Framed where
+  chunked : Bool
+  contentLength : Int
+  close : Bool
+  deriving Repr, DecidableEq
+
+/-- martian `writeResponse` before the writers, in code order:
+    * `res.Close` := `req.Close` ∨ what the transport decided (no shutdown in progress);
+    * an HTTP/1.0 client cannot parse a chunked body: a response with a transfer encoding that is not
+      header-only falls back to a close-delimited body (`TransferEncoding = nil`, `ContentLength = -1`,
+      `Close = true`; with the chunking gone `Response.Write` sends no trailers either);
+    * a response the transport decompressed (`Uncompressed`) has lost its length; `Response.Write`
+      exempts such a response from its "no length ⇒ close" rule, so it is framed here: chunked when the
+      response's protocol AND the client's protocol are HTTP/1.1, close-delimited otherwise. -/
+def frameForClient (rc : ReqCtx) (g : GoResp) : Framed :=
+  let ho := headerOnly rc.method g.status
+  let f0 : Framed := { chunked := g.chunked, contentLength := g.contentLength, close := g.close || rc.reqClose }
+  let f1 : Framed :=
+    if !(rc.reqMinor ≥ 1) && f0.chunked && !ho then { chunked := false, contentLength := -1, close := true }
+    else f0
+  if g.uncompressed && f1.contentLength < 0 && !f1.chunked && !f1.close && !ho then
+    if g.minor ≥ 1 && rc.reqMinor ≥ 1 then { f1 with chunked := true } else { f1 with close := true }
+  else f1
+
+/-- names of `res.Trailer` (a map: no duplicates; listed in sorted order here) -/
+def trailerKeys (g : GoResp) : List Bytes := (g.trailer.mergeSort C16.bytesLe).eraseDups
+
 /-- `processResponse`: what is written to the client (no shutdown in progress). -/
 def processResponse (rc : ReqCtx) (o : OriginResp) : Outcome :=
   match readResponse rc o with
@@ -162,30 +192,37 @@ def processResponse (rc : ReqCtx) (o : OriginResp) : Outcome :=
     let h1 := if isConnect then g.header else applyRules rc.rules g.header
     let h2 := removeHopByHop h1
     let h3 := if resUp.isEmpty then h2 else goSet (goSet h2 (bs "Connection") (bs "Upgrade")) (bs "Upgrade") resUp
-    let close := g.close || rc.reqClose
+    let w := frameForClient rc g
+    let close := w.close
     let h4 := if close then goAdd h3 (bs "Connection") (bs "close") else h3
     if ho then
-      -- martian's own head writer: the whole map, then `Trailer:` when trailers were declared
-      let framing := if g.trailer.isEmpty then Framing.none else Framing.unterminatedHead
+      -- martian's own head writer: the whole map, then `Trailer: k1, k2` from the keys of `res.Trailer`
+      -- (Go map order on the wire; sorted here, the correspondence check compares the names as a set),
+      -- then the blank line
+      let trailerLine : List (Bytes × List Bytes) :=
+        if g.trailer.isEmpty then [] else [(bs "trailer", [joinWith [44, 32] (trailerKeys g)])]
       .ok { minor := g.minor, status := g.status, reason := reasonOut g.reason,
-            fields := mergeFields (lowerFields h4), framing := framing, body := .dropped, keepAlive := !close }
+            fields := mergeFields (lowerFields h4 ++ trailerLine), framing := .none, body := .dropped,
+            keepAlive := !close }
     else
-      let len := g.contentLength
-      let chunked := g.chunked && g.minor ≥ 1
+      let len := w.contentLength
+      let chunked := w.chunked && g.minor ≥ 1
       let closeW := close || (len == -1 && g.minor ≥ 1 && !chunked && !g.uncompressed)
       let connLine : List (Bytes × List Bytes) :=
         if closeW && !valuesContainToken [goGet h4 (bs "Connection")] (bs "close") then [(bs "connection", [bs "close"])] else []
       let lenFields : List (Bytes × List Bytes) :=
         if chunked then [(bs "transfer-encoding", [bs "chunked"])] ++
-          (if g.trailer.isEmpty then [] else [(bs "trailer", [joinWith [44] (g.trailer.mergeSort C16.bytesLe).eraseDups])])
+          (if g.trailer.isEmpty then [] else [(bs "trailer", [joinWith [44] (trailerKeys g)])])
         else if len ≥ 0 then [(bs "content-length", [natToDec len.toNat])]
         else []
       let excluded := [bs "Content-Length", bs "Transfer-Encoding", bs "Trailer"]
       let rest := lowerFields (h4.filter fun e => !excluded.contains e.1)
+      -- neither chunked nor a length: the body ends with the connection (`c02_framing_eof_closes`
+      -- proves that the connection is then closed)
       let framing : Framing :=
-        if chunked then .chunked ((g.trailer.mergeSort C16.bytesLe).eraseDups)
+        if chunked then .chunked (trailerKeys g)
         else if len ≥ 0 then .cl len.toNat
-        else if closeW then .eof else .unframed
+        else .eof
       .ok { minor := g.minor, status := g.status, reason := reasonOut g.reason,
             fields := mergeFields (connLine ++ lenFields ++ rest), framing := framing,
             body := if g.uncompressed then .gunzip else .same, keepAlive := !closeW }
